@@ -16,6 +16,7 @@ package prometheus
 
 import (
 	"fmt"
+	"sync"
 	"time"
 
 	grpc_prometheus "github.com/grpc-ecosystem/go-grpc-prometheus"
@@ -25,9 +26,13 @@ import (
 	"github.com/kubewharf/kubebrain/pkg/metrics"
 )
 
+var enableHandlingTimeHistogramOnce sync.Once
+
 // GetGrpcServerOptions returns the grpc interceptor to collect metrics
 func GetGrpcServerOptions() []grpc.ServerOption {
-	grpc_prometheus.EnableHandlingTimeHistogram()
+	// it changes the package-level server metrics of grpc_prometheus without any locking, and the client and peer
+	// servers of an endpoint ask for their options at the same time
+	enableHandlingTimeHistogramOnce.Do(func() { grpc_prometheus.EnableHandlingTimeHistogram() })
 	return []grpc.ServerOption{
 		grpc.StreamInterceptor(grpc_prometheus.StreamServerInterceptor),
 		grpc.UnaryInterceptor(grpc_prometheus.UnaryServerInterceptor),
